@@ -614,3 +614,4 @@ for _p, _only in (('C04', [r'AdmissionPolicy::delete$']), ('C05', [r'AdmissionPo
     if 'policy' in PROPS[_p]['verus_only']:
         PROPS[_p]['verus_only']['policy'] = PROPS[_p]['verus_only']['policy'] + _only
 PROPS['C15']['verus_only']['pool'] = PROPS['C15']['verus_only']['pool'] + [r'Buffer::new$']
+
